@@ -18,6 +18,12 @@ pub unsafe fn znx_switch_ring_avx(res: &mut [i64], a: &[i64]) {
             return;
         }
 
+        // The vector paths below move groups of 4 coefficients of the smaller ring.
+        if n_in.min(n_out) < 4 {
+            poulpy_cpu_ref::reference::znx::znx_switch_ring_ref(res, a);
+            return;
+        }
+
         if n_in > n_out {
             // Downsample: res[k] = a[k * gap_in], contiguous stores
             let gap_in: usize = n_in / n_out;
